@@ -1,6 +1,7 @@
 """C20 - configuration validation enforces documented option domains and fills defaults."""
 import contextlib
 import copy
+import numpy as np
 
 from symx import Harness, pname, sand, sor, simplies, siff, near_le, near_eq, snot, is_sym, SymReal, SymInt
 from symx.stubs import shadow, sym_isinstance, make_table_grader
@@ -115,6 +116,26 @@ def h_numeric(E, key):
         stored = get(obj)
         E.check('stored-value-is-the-supplied-one', stored is v or near_eq(stored, v))
     return err or 'ok'
+
+
+def _restricted(dom):
+    return not (bool(dom(-5)) and bool(dom(5)) and bool(dom(0.5)))
+
+
+def h_numeric_nan(E, key):
+    """not-a-number lies in no documented range: for every real-valued option whose domain is bounded on some side, NaN is refused
+    (every ordering comparison with NaN is false, so a careless range test lets it through)"""
+    from voluptuous import Error as Invalid
+    from mitxgraders.exceptions import ConfigError
+    build, kind, dom, get = TABLE()[key]
+    v = E.choice('nan', [float('nan'), -float('nan'), np.float64('nan')])
+    try:
+        build(v)
+    except (Invalid, ConfigError) as e:
+        E.check('nan-is-outside-every-bounded-domain', True)
+        return type(e).__name__
+    E.check('nan-is-outside-every-bounded-domain', False)
+    return 'built'
 
 
 def _strip(x):
@@ -508,6 +529,9 @@ def harnesses(tier):
     add(h_override, 'override', {}, 'presence flags')
     for cls in UNKNOWN:
         add(h_unknown_key, 'unknown_key', dict(cls=cls), 'presence flag')
+    for key, (build, kind, dom, get) in TABLE().items():
+        if kind == 'real' and _restricted(dom):
+            add(h_numeric_nan, 'numeric_nan', dict(option=key), 'NaN as python float and numpy float')
     for form in ('list', 'string', 'plain'):
         add(h_list_lengths, 'list_lengths', dict(cls='SingleListGrader', form=form), '1-2 answer entries x 1-2 alternatives each, list lengths 1..3')
     for i in range(len(ANSWERS)):
